@@ -1,6 +1,6 @@
 //! C11 — channels are independent; masked-out channels are skipped and left untouched.
-use crate::cfg::{config_strategy, CfgSpace, Config};
-use crate::dynres::SampleX;
+use crate::cfg::{build_vec, config_strategy, CfgSpace, Config};
+use crate::dynres::{SampleX, ViaVec};
 use crate::engine::{Aggregate, Outcome, Property, Tier};
 use crate::hist::{call_cost, ops_strategy, HistOpts, Interp, Op, OpSpace, Path, StepRes};
 use crate::props::c10::new_trace;
@@ -15,6 +15,10 @@ pub struct Case {
     /// constant mask for the whole stream (None: no mask)
     pub mask: Option<u8>,
     pub ops: Vec<Op>,
+    /// drive the two n-channel instances through `Box<dyn VecResampler>` (the single-channel twins stay direct);
+    /// reset / set_chunk_size are not part of that trait and are left out of such a history
+    #[serde(default)]
+    pub via_vec: bool,
 }
 
 pub struct C11;
@@ -29,7 +33,11 @@ fn with_mask(op: &Op, m: Option<u8>) -> Op {
 
 fn run_t<T: SampleX>(c0: &Case) -> Outcome {
     let mut o = Outcome::default();
-    let (cfg, excl) = c0.cfg.sanitized();
+    let (mut cfg, excl) = c0.cfg.sanitized();
+    if c0.via_vec {
+        // the boxed resampler comes from the plain constructor: the twins must use the same kernel
+        cfg.kernel = crate::cfg::Kernel::Dispatch;
+    }
     for l in excl {
         o.class(l);
     }
@@ -49,7 +57,11 @@ fn run_t<T: SampleX>(c0: &Case) -> Outcome {
     single_cfg.channels = 1;
     // u: n-channel, no mask; a: n-channel with the constant mask; s[c]: single-channel twins
     let mk = |c: &Config| Interp::<T>::new(c, &opts);
-    let (mut u, mut a) = match (mk(&cfg), mk(&cfg)) {
+    let mkn = |c: &Config| if c0.via_vec { build_vec::<T>(c).map(|b| Interp::from_res(c, &opts, Box::new(ViaVec(b)))) } else { Interp::<T>::new(c, &opts) };
+    if c0.via_vec {
+        o.class("n-channel instances through Box<dyn VecResampler>");
+    }
+    let (mut u, mut a) = match (mkn(&cfg), mkn(&cfg)) {
         (Ok(u), Ok(a)) => (u, a),
         _ => {
             o.fail(format!("construct-rejected:{}", kind.name()), "constructor rejected a valid configuration");
@@ -72,6 +84,9 @@ fn run_t<T: SampleX>(c0: &Case) -> Outcome {
     let mut ts: Vec<_> = (0..n).map(|_| new_trace::<T>()).collect();
     let mut compared = 0u64;
     for (i, op0) in c0.ops.iter().enumerate() {
+        if c0.via_vec && matches!(op0, Op::Reset | Op::SetChunk { .. } | Op::SetChunkRaw { .. }) {
+            continue;
+        }
         let (nu, na) = (tu.steps.len(), ta.steps.len());
         u.step(i, &with_mask(op0, None), &sig, &mut tu);
         a.step(i, &with_mask(op0, c0.mask), &sig, &mut ta);
@@ -162,7 +177,7 @@ impl Property for C11 {
         "C11"
     }
     fn rule(&self) -> String {
-        "cases = configuration with 1..8 channels, independent noise per channel, a constant mask (none / random / all-true / all-false; inactive inputs passed as empty slices, inactive outputs sentinel-filled), a history of documented operations; executed on the n-channel instance without mask, on the n-channel instance with the mask, and on n single-channel twins: per channel bit-identical outputs and equal counts/getters, inactive output buffers untouched. non-trivial = >= 2 channels, >= 2 compared channel-calls, and for mask cases >= 1 inactive channel. distinct = distinct case JSON digest.".into()
+        "cases = configuration with 1..8 channels, independent noise per channel, a constant mask (none / random / all-true / all-false; inactive inputs passed as empty slices, inactive outputs sentinel-filled), a history of documented operations (a quarter of the cases drive the n-channel instances through Box<dyn VecResampler>); executed on the n-channel instance without mask, on the n-channel instance with the mask, and on n single-channel twins: per channel bit-identical outputs and equal counts/getters, inactive output buffers untouched. non-trivial = >= 2 channels, >= 2 compared channel-calls, and for mask cases >= 1 inactive channel. distinct = distinct case JSON digest.".into()
     }
     fn assumptions(&self) -> Vec<String> {
         vec!["the mask is held constant over a stream, as in the statement".into()]
@@ -171,8 +186,8 @@ impl Property for C11 {
         let mut sp = CfgSpace::histories(tier.thorough());
         sp.max_channels = 8;
         let mask = prop_oneof![2 => Just(None), 4 => any::<u8>().prop_map(Some), 1 => Just(Some(0u8)), 1 => Just(Some(255u8))];
-        (config_strategy(sp), 1usize..=8, any::<u64>(), mask, ops_strategy(OpSpace::all(), 14))
-            .prop_map(|(mut cfg, ch, seed, mask, ops)| {
+        (config_strategy(sp), 1usize..=8, any::<u64>(), mask, ops_strategy(OpSpace::all(), 14), prop_oneof![3 => Just(false), 1 => Just(true)])
+            .prop_map(|(mut cfg, ch, seed, mask, ops, via_vec)| {
                 if cfg.channels == 1 {
                     cfg.channels = ch;
                 }
@@ -180,7 +195,7 @@ impl Property for C11 {
                 while call_cost(&cfg) * calls * 3.0 > 8e6 && cfg.chunk > 1 {
                     cfg.chunk = (cfg.chunk / 2).max(1);
                 }
-                Case { cfg, seed, mask, ops }
+                Case { cfg, seed, mask, ops, via_vec }
             })
             .boxed()
     }
